@@ -152,6 +152,9 @@ def history_steps(rng, nsteps, interrupts=True, deletes=True, observe="restore_a
     """A random operation history: mutate / backup(opts) / interrupted backup / delete(subset) / gc,
     observing every surviving version after every step."""
     t = random_tree(rng, nmax=nmax, depth=3, pre_epoch=pre_epoch, maxlen=9, sibs=rng.choice([0.0, 0.0, 0.4]))
+    shape_opts = None
+    if rng.random() < 0.45:
+        _, t, shape_opts = shape_tree(rng)
     steps = [{"op": "tree", "tree": t}]
     earlier = [t]
     nb = 0          # next band id (predicted; only used to pick delete sets)
@@ -164,7 +167,7 @@ def history_steps(rng, nsteps, interrupts=True, deletes=True, observe="restore_a
                 t = cvlib.distinct_from_history(mutate_tree(rng, t, maxlen=9), earlier)
                 earlier.append(t)
                 steps.append({"op": "tree", "tree": t})
-            o = rng.choice(OPTS_POOL)
+            o = rng.choice(OPTS_POOL) if (shape_opts is None or rng.random() < 0.4) else shape_opts
             if interrupts and rng.random() < 0.3:
                 # a third of the interruptions hit the prologue (band directory, index directory, head)
                 k = rng.choice([4, 5, 6, 7]) if rng.random() < 0.35 else rng.randrange(3, 45)
@@ -478,6 +481,62 @@ def combine_tree(rng):
     return t, {"H": H, "M": M, "S": S}
 
 
+def shape_tree(rng):
+    """A source tree from the shared catalogue of shapes (every history-based generator draws from it,
+    so that a shape one property's generator lacks is not what a change hides behind): random,
+    many-small-files, sizes around both thresholds with duplicate contents, prefix-named sibling
+    directories, deep nesting, unusual names, one-of-each-kind, prefix-family contents.
+    Returns (tag, tree, suggested settings)."""
+    k = rng.randrange(8)
+    if k == 0:
+        return "random", random_tree(rng, nmax=rng.choice([4, 7, 10]), pre_epoch=False, maxlen=8, sibs=rng.choice([0.0, 0.4])), rng.choice(OPTS_POOL)
+    if k == 1:
+        t, o = combine_tree(rng)
+        return "combine", t, o
+    if k == 2:
+        H, M, S = rng.choice([(1, 4, 2), (2, 4, 4), (3, 3, 0), (1000, 5, 3), (2, 1, 1), (3, 2, 2)])
+        t = [node("/", "Dir")]
+        for sz in rng.sample(range(0, 2 * M + 2), min(5, 2 * M + 2)):
+            c = bytes((j % 3) + 1 for j in range(sz))
+            t.append(node(f"/z{sz:02d}", "File", c, mt=(1600001000 + sz, 0)))
+            if rng.random() < 0.5:
+                t.append(node(f"/y{sz:02d}", "File", c, mt=(1600001100 + sz, 0)))
+        return "sizes", t, {"H": H, "M": M, "S": S}
+    if k == 3:
+        sibs = rng.sample(["a", "a.b", "a-", "a b", "ab", "a.d", "a+", "b"], rng.randrange(2, 5))
+        t = [node("/", "Dir"), node("/readme", "File", b"r")]
+        for sname in sibs:
+            t.append(node("/" + sname, "Dir"))
+            for child in rng.sample(["10-l", "m", "old", "x", "sub"], rng.randrange(1, 4)):
+                if child == "sub":
+                    t.append(node(f"/{sname}/sub", "Dir"))
+                    t.append(node(f"/{sname}/sub/f", "File", cvlib.rand_content(rng, 4), mt=(1600001200, 0)))
+                else:
+                    t.append(node(f"/{sname}/{child}", "File", cvlib.rand_content(rng, 4), mt=(1600001201, 0)))
+        return "prefix-siblings", t, rng.choice(OPTS_POOL[:6])
+    if k == 4:
+        t = [node("/", "Dir")]
+        path = ""
+        for d in range(rng.randrange(4, 8)):
+            path += "/" + rng.choice(["d", "é", "a.b", "-x", "zz"])
+            t.append(node(path, "Dir", mode=rng.choice([0o755, 0o700, 0o1777, 0o2750])))
+            if rng.random() < 0.7:
+                t.append(node(path + "/f", "File", cvlib.rand_content(rng, 6), mt=(1600001300 + d, 0)))
+        return "deep", t, rng.choice(OPTS_POOL[:6])
+    if k == 5:
+        t = [node("/", "Dir")]
+        for i, nm in enumerate(rng.sample(["ÿ", "日本", "a b", "#", "!", "~", "..a", "a..", "...", "-", " s", ".h", "A", "a"], 6)):
+            t.append(node("/" + nm, rng.choice(["File", "File", "Dir"]), bytes([i + 1]) * (i % 3), mt=(1600001400 + i, 0)))
+        t = [n if n["k"] == "File" else dict(n, c=[]) for n in t]
+        return "names", t, rng.choice(OPTS_POOL[:6])
+    if k == 6:
+        t = [node("/", "Dir"), node("/d", "Dir"), node("/d/f", "File", b"\x01\x02"), node("/e", "Dir"), node("/f", "File", b"\x03"),
+             node("/l", "Symlink", target="f", mt=(1600001500, 0)), node("/m", "Symlink", target="d", mt=(1600001501, 0)), node("/z", "File", b"")]
+        return "kinds", t, rng.choice(OPTS_POOL[:6])
+    t = cvlib.prefix_family_tree(rng, dirs=rng.choice([("",), ("", "d", "d.x")]))
+    return "prefix-family", t, rng.choice(BIG_OPTS)
+
+
 @check("C03", "model_checking", "TLA+ spec + TLC (every pc of the backup actor x clean/empty-file crash) + crash-point enumeration on the real code, every intermediate state judged by the spec's monitors")
 def gen_c03(tier, seed):
     rng = random.Random(seed * 1000 + 3)
@@ -486,6 +545,8 @@ def gen_c03(tier, seed):
     for i in range(n):
         o = rng.choice(OPTS_POOL[:6])
         t1 = random_tree(rng, nmax=rng.choice([3, 5, 7]), pre_epoch=False, maxlen=8)
+        if i % 3 == 2:
+            _, t1, o = shape_tree(rng)
         prev = ["none", "one", "two", "incomplete", "emptyhead", "one", "headless"][i % 7]
         steps = []
         if prev != "none":
@@ -543,6 +604,8 @@ def gen_c04(tier, seed):
         # small block sizes so that combined-block flushes happen mid-run
         o = rng.choice(C04_OPTS)
         t1 = with_dups(rng, random_tree(rng, nmax=rng.choice([4, 6, 9]), pre_epoch=False, maxlen=6, symlinks=False, depth=2))
+        if i % 4 == 3:
+            _, t1, o = shape_tree(rng)
         steps = []
         if rng.random() < 0.6:
             steps += [{"op": "tree", "tree": mut(rng, t1, maxlen=6)}, bk(rng.choice(OPTS_POOL[:5]))]
@@ -801,6 +864,12 @@ def damage_archive(rng):
     a header, shared combined blocks, multi-block files, several hunks."""
     o = rng.choice([{"H": 2, "M": 3, "S": 2}, {"H": 1, "M": 4, "S": 3}, {"H": 3, "M": 2, "S": 1}, {"H": 1000, "M": 1000, "S": 1000}, {"H": 2, "M": 1000, "S": 1000}])
     t = random_tree(rng, nmax=rng.choice([3, 5, 7]), depth=3, pre_epoch=False, maxlen=7)
+    if rng.random() < 0.35:
+        tag, t, o2 = shape_tree(rng)
+        if tag != "prefix-family":
+            o = o2
+        else:
+            t = random_tree(rng, nmax=5, depth=3, pre_epoch=False, maxlen=7)
     # make sure there is something to damage: at least two files, one of them spanning blocks
     t.append(node("/big", "File", bytes((j % 5) + 1 for j in range(7)), mt=(1600000050, 0)))
     t.append(node("/s1", "File", b"\x01\x02", mt=(1600000051, 0)))
